@@ -18,6 +18,7 @@ func runC04(c *Ctx) {
 	c.Clause("C04.4 checkFlowControlViolation is highestReceived > receiveWindow")
 	c.Clause("C04.5 every change of stream-level bytesRead is accompanied by exactly one connection.AddBytesRead of the same delta; Abandon is called on each early-termination path of the receive stream")
 	c.Clause("C04.6 MAX_STREAM_DATA / MAX_DATA frames are built from GetWindowUpdate only for a non-zero value")
+	c.Clause("C04.7 the final size of a RESET_STREAM(_AT) the send stream queues is its write offset (what flow control admitted)")
 	c.Clause("C04.6 lastBlockedAt written only on the newly-blocked path; *_BLOCKED frames are only built under IsNewlyBlocked()==true")
 	c.Clause("C04.7 MAX_DATA / MAX_STREAM_DATA values come from GetWindowUpdate at frame creation")
 	c.NotCovered("arithmetic of window auto-tuning")
@@ -30,6 +31,7 @@ func runC04(c *Ctx) {
 	c.rule("C04.3", func() { c04ReceiveSide(c) })
 	c.rule("C04.5", func() { c04BytesRead(c) })
 	c.rule("C04.6", func() { c04NoZeroWindowUpdateFrame(c) })
+	c.rule("C04.7", func() { c04ResetFinalSizeWithinCredit(c) })
 	c.rule("C04.5", func() { c04AbandonInReadLoop(c) })
 	c.rule("C04.6", func() { c04Blocked(c) })
 	c.rule("C04.7", func() { c04WindowUpdates(c) })
